@@ -56,7 +56,23 @@ func c14(p *model.Prog, r *report.Result) {
 	serveHls := p.Method("pkg/logic", "ServerManager", "serveHls")
 	hlsServe := p.MethodObj("pkg/hls", "ServerHandler", "ServeHTTP")
 	serves := model.CallsTo(serveHls, hlsServe)
-	hlsAuth := model.CallsTo(serveHls, onHls)
+	// the OnHls check itself, or a helper of the package that returns nothing but OnHls's verdict
+	isOnHls := func(c ssa.CallInstruction) bool {
+		if model.SameFunc(model.CalleeObj(c.Common()), onHls) {
+			return true
+		}
+		ce := c.Common().StaticCallee()
+		return ce != nil && ce.Pkg == serveHls.Pkg && allReturnsSatisfy(ce, 0, func(v ssa.Value) bool {
+			call, isC := v.(*ssa.Call)
+			return isC && model.SameFunc(model.CalleeObj(call.Common()), onHls)
+		})
+	}
+	var hlsAuth []ssa.CallInstruction
+	for _, c := range model.AllCalls(serveHls) {
+		if isOnHls(c) {
+			hlsAuth = append(hlsAuth, c)
+		}
+	}
 	if len(serves) == 0 || len(hlsAuth) == 0 {
 		r.Bad("C14.R1", fkey(serveHls, "attach", "hls"), p.Pos(serveHls.Pos()), "serveHls no longer calls OnHls / ServeHTTP")
 	}
@@ -101,7 +117,7 @@ func c14(p *model.Prog, r *report.Result) {
 					if (model.PathQuery{FromBlock: b.Succs[k],
 						Stop: func(x ssa.Instruction) bool {
 							c2, isC := x.(ssa.CallInstruction)
-							return isC && model.SameFunc(model.CalleeObj(c2.Common()), onHls)
+							return isC && isOnHls(c2)
 						},
 						Target: func(x ssa.Instruction) bool { return x == sv }}).Find(serveHls) != nil {
 						okPass = false
